@@ -18,14 +18,37 @@ CHECK = {
     "entries": [
         {"fn": P + "vC31_turns", "replay": "model-only", "cover_optional": ("pending",)},
         {"fn": P + "vC31_deactivate", "replay": "model-only"},
-        {"fn": P + "vC31_activation", "replay": "model-only", "cases": {"first": [0, 1], "retained": [0, 1]},
-         "opts": {"substitute": SUB_ACT, "unwind": 6}, "cover_optional": ("all-received",)},
+        {"fn": P + "vC31_activation", "replay": "model-only", "cases_quick": {"first": [0, 1], "retained": [0, 1]}, "cases_thorough": {"first": [0, 1], "retained": [0, 1]},
+         "opts": {"substitute": SUB_ACT, "unwind": 6, "rounds": 2}, "cover_optional": ("all-received",)},
         {"fn": P + "vC31_resend", "replay": "model-only", "opts": {"substitute": SUB_RESEND, "unwind": 6, "rounds": 2},
          "cover_optional": ("sent-after-deactivation", "fresh-instance", "handled-by-old-or-dropped")},
     ],
     "opts": {"rounds": 3, "unwind": 4, "unwind_mode": "assume", "feasibility": False, "substitute": SUB},
     "stop": STOP,
-    "timeout_ms": {"quick": 400000, "thorough": 1800000},
-    "explanation": "grainPID.receive, runTurn, finishOrReclaim, hasPendingWork, paused, dequeueResponse, the real dispatchOne (PoisonPill arm: handlePoisonPill with its isActive guard) and the real grainMailbox under solver-chosen interleavings; OnReceive (handleGrainContext) and OnDeactivate (deactivate) are ghost recorders, the ready queue is a token channel.",
-    "bounds": {"threads": "2 senders (<= 3 messages + pills), 2 workers", "rounds": 3, "throughput": 3},
+    "timeout_ms": {"quick": 900000, "thorough": 1800000},
+    "explanation": (
+        "vC31_turns / vC31_deactivate: grainPID.receive, runTurn, finishOrReclaim, hasPendingWork, paused, dequeueResponse, the real dispatchOne (PoisonPill arm: handlePoisonPill with its isActive guard) "
+        "and the real grainMailbox under solver-chosen interleavings; OnReceive (handleGrainContext) and OnDeactivate (deactivate) are ghost recorders, the ready queue is a token channel. "
+        "vC31_activation (Mode C; one grain identity that is not active: no process registered [never used / deactivated earlier], or an inactive process retained in the grains map): two callers at the same time - "
+        "the first resolves the identity (real activateGrain -> resolveGrainOwner, tryRemoteGrainActivation, activateGrainLocally: the shared body of GrainIdentity / GrainOf) or sends (real TellGrain), the second sends (TellGrain) - "
+        "and one worker (2 turns). Real: TellGrain gate, ensureGrainProcess (fast path + slow path), ensureExistingGrainProcess, ensureNewGrainProcess, runGrainActivation over the real x/sync singleflight.Group, "
+        "newGrainPID, (*grainPID).activate (timer registry, recover/rollback defers, activated flag), finalizeGrainActivation, xsync.Map, grainPID.receive/runTurn/dispatchOne/handleGrainContext, grainMailbox. "
+        "The grain is a ghost (vC31Grain) whose OnActivate / OnReceive / OnDeactivate have a begin and an end with a context switch in between. Asserted: OnActivate never starts while another activation of the identity "
+        "(any instance) is in progress or live; OnReceive only after the OnActivate of its instance completed; no two OnReceive of the identity overlap (also on two instances); when the callers returned exactly one "
+        "instance was activated, exactly once, and it is the registered active process (so passivation / PoisonPill / Stop reach it; an orphan never gets OnDeactivate); a retained process is re-activated in place; "
+        "every message is received exactly once when the worker drained. "
+        "vC31_resend (Mode C): the grain is active (real activate in the prefix); one caller deactivates it explicitly (TellGrain(PoisonPill): real handlePoisonPill, deactivate with the timer-registry stop, "
+        "grains.Delete, flag reset), another sends a message, one worker (2 turns). Asserted: OnDeactivate exactly once per activation, never overlapping OnReceive; the new activation never starts before the old "
+        "OnDeactivate returned; a message whose send starts after the deactivation completed activates a fresh instance (created from the registry) that receives it exactly once and is the registered active process. "
+        "Substituted in these two entries (environment only): dispatcher.schedule / worker.reschedule -> token channel of grain processes, grainPID.recovery -> no-op, actorSystem.localSend -> ensureGrainProcess + "
+        "receive (the reply wait is dropped), GrainIdentity.Validate -> nil, reflection.instantiateGrain -> fresh ghost instance, retry.Retrier.RunContext -> first attempt; vC31_resend additionally "
+        "teardownInFlightRequests / GrainContext.NoErr / Err -> no-ops. Auto-stubbed: retry.NewRetrier, time.Time.Unix."),
+    "bounds": {"turns/deactivate": "2 senders (<= 3 messages + pills), 2 workers, 3 rounds, throughput 3",
+               "activation": "1 identity, 2 callers ({GrainIdentity path | Tell} + Tell) x {no process | retained inactive process}, 1 worker x 2 turns, 2 rounds, throughput 2",
+               "resend": "1 identity, PoisonPill sender + message sender, 1 worker x 2 turns, 2 rounds"},
+    "assumptions": [
+        "not clustered (ownership claims are C30's subject); OnActivate / OnDeactivate succeed on the first attempt; contexts are never cancelled",
+        "an OnReceive after the OnDeactivate of the same activation (message queued behind the PoisonPill) is finding C31-1 and is asserted only by vC31_deactivate",
+        "a message whose send overlaps the deactivation may be dropped by receive's isActive gate (the real localSend then reports a timeout to the sender): only sends that start after the deactivation completed are required to reach a fresh instance",
+    ],
 }
